@@ -173,7 +173,7 @@ def cal_side(ctx, tier, only=None):
         for f in c.get('fail', []): whats.append('exact end-to-end run: ' + f)
         if not whats: continue
         rd = os.path.join(core.VERIF, 'evidence', 'replay', 'C01_cal_' + re.sub(r'\W+', '_', r['id']))
-        ok, how, outp = native.run_c(calflow.native_program(byname[r['id']]), rd)
+        ok, how, outp = native.confirm(calflow.native_program(byname[r['id']]), rd, fault=r.get('fault'))
         json.dump({'property': 'C01', 'config': r['id'], 'what': whats, 'native': how, 'sat': r.get('sat'), 'fault': r.get('fault')}, open(os.path.join(rd, 'cex.json'), 'w'), indent=1, default=str)
         viol.append({'id': r['id'], 'what': ' ;; '.join(whats), 'replay': rd, 'confirmed': ok, 'how': how})
     return results, viol
